@@ -281,6 +281,15 @@ type BadTagged struct {
 	SF []func()       `json:"sf" jsonschema:"callbacks"`
 	N  int            `json:"n" jsonschema:"a number"`
 }
+
+// Malformed jsonschema tags: For must return an error.
+type BadTagEmpty struct {
+	A int `json:"a" jsonschema:""`
+}
+type BadTagWord struct {
+	A int    `json:"a" jsonschema:"ok"`
+	B string `json:"b" jsonschema:"KEY=value is reserved"`
+}
 type BadDeep struct {
 	L []map[string]*struct {
 		C chan bool `json:"c"`
@@ -320,3 +329,6 @@ var Unsupported = []reflect.Type{reflect.TypeFor[BadChan](), reflect.TypeFor[Bad
 
 // Embeddable are struct types safe to embed into reflect-built structs (distinct JSON names).
 var Embeddable = []reflect.Type{reflect.TypeFor[EmbBase](), reflect.TypeFor[Inner](), reflect.TypeFor[EmbDeep]()}
+
+// BadTags have malformed jsonschema tags: For must fail with an error (with or without IgnoreInvalidTypes).
+var BadTags = []reflect.Type{reflect.TypeFor[BadTagEmpty](), reflect.TypeFor[BadTagWord](), reflect.TypeFor[[]BadTagEmpty](), reflect.TypeFor[map[string]*BadTagWord]()}
